@@ -29,14 +29,14 @@ POOLS = {
 
 # which TLC configurations serve which property, per tier
 CONFIGS = {
-    "C01": dict(quick=["Layout_pair_quick", "Layout_pair_big"], thorough=["Layout_pair_thorough", "Layout_pair_big"], targets=["LAMMPS"]),
-    "C02": dict(quick=["Layout_pair_quick", "Layout_pair_big"], thorough=["Layout_pair_thorough", "Layout_pair_big"], targets=["DLPOLY"]),
+    "C01": dict(quick=["Layout_pair_quick", "Layout_pair_big", "Layout_pairdup_quick"], thorough=["Layout_pair_thorough", "Layout_pair_big", "Layout_pairdup_quick"], targets=["LAMMPS"]),
+    "C02": dict(quick=["Layout_pair_quick", "Layout_pair_big", "Layout_pairdup_quick"], thorough=["Layout_pair_thorough", "Layout_pair_big", "Layout_pairdup_quick"], targets=["DLPOLY"]),
     "C03": dict(quick=["Layout_eam_quick", "Layout_eamu_quick", "Layout_eamf_quick"], thorough=["Layout_eam_thorough", "Layout_eamu_quick", "Layout_eamf_quick"], targets=["setfl"]),
     "C04": dict(quick=["Layout_fs_quick", "Layout_fsu_quick", "Layout_fsf_quick"], thorough=["Layout_fs_thorough", "Layout_fsu_thorough", "Layout_fsf_quick"], targets=["setfl_fs", "DL_POLY_EAM_fs", "excel_eam_fs"]),
     "C05": dict(quick=["Layout_eam_quick", "Layout_fs_quick", "Layout_eamu_quick", "Layout_fsu_quick", "Layout_eamf_quick", "Layout_fsf_quick"],
                 thorough=["Layout_eam_thorough", "Layout_fs_thorough", "Layout_eamu_quick", "Layout_fsu_thorough", "Layout_eamf_quick", "Layout_fsf_quick"],
                 targets=["DL_POLY_EAM", "DL_POLY_EAM_fs"]),
-    "C19": dict(quick=["Layout_pair_quick", "Layout_pair_big", "Layout_eam_quick", "Layout_eamu_quick", "Layout_eamf_quick", "Layout_fs_quick", "Layout_fsf_quick", "Layout_adp_quick", "Layout_funcfl"],
+    "C19": dict(quick=["Layout_pair_quick", "Layout_pair_big", "Layout_pairdup_quick", "Layout_eam_quick", "Layout_eamu_quick", "Layout_eamf_quick", "Layout_fs_quick", "Layout_fsf_quick", "Layout_adp_quick", "Layout_funcfl"],
                 thorough=["Layout_pair_thorough", "Layout_pair_big", "Layout_eam_thorough", "Layout_eamf_quick", "Layout_fs_thorough", "Layout_fsf_quick", "Layout_adp_thorough", "Layout_funcfl"],
                 targets=["GULP", "excel", "excel_eam", "excel_eam_fs", "eam_adp", "funcfl"]),
 }
@@ -558,8 +558,9 @@ def cmp_lammps(c, plan, text):
     for title, hdr, rows in exp:
         la, lb = ctx.L(title["a"]), ctx.L(title["b"])
         cands = [b for b in blocks if b["title"] in ("%s-%s" % (la, lb), "%s-%s" % (lb, la))]
-        if len(cands) != 1:
-            c.fail("one-block-per-potential", "%d blocks titled %s-%s" % (len(cands), la, lb))
+        mult = sum(1 for t2, _, _ in exp if {t2["a"], t2["b"]} == {title["a"], title["b"]})     # 1 unless the caller listed the pair twice
+        if len(cands) != mult:
+            c.fail("one-block-per-potential", "%d blocks titled %s-%s, the list of potentials has %d" % (len(cands), la, lb, mult))
             continue
         b = cands[0]
         if b["N"] != hdr["N"]:
@@ -602,8 +603,9 @@ def cmp_dlpoly(c, plan, text):
     for lab, e, f in exp:
         la, lb = ctx.L(lab["a"]), ctx.L(lab["b"])
         cands = [b for b in t["blocks"] if label_pair_key(b["a"], b["b"]) == label_pair_key(la, lb)]
-        if len(cands) != 1:
-            c.fail("one-block-per-potential", "%d blocks labelled %s %s" % (len(cands), la, lb))
+        mult = sum(1 for l2, _, _ in exp if {l2["a"], l2["b"]} == {lab["a"], lab["b"]})
+        if len(cands) != mult:
+            c.fail("one-block-per-potential", "%d blocks labelled %s %s, the list of potentials has %d" % (len(cands), la, lb, mult))
             continue
         b = cands[0]
         p = probe(e["fn"])
@@ -636,8 +638,9 @@ def cmp_gulp(c, plan, text):
     for _, h, rows in exp:
         la, lb = ctx.L(h["a"]), ctx.L(h["b"])
         cands = [b for b in blocks if label_pair_key(b["a"], b["b"]) == label_pair_key(la, lb)]
-        if len(cands) != 1:
-            c.fail("one-block-per-potential", "%d blocks for %s %s" % (len(cands), la, lb))
+        mult = sum(1 for _, h2, _ in exp if {h2["a"], h2["b"]} == {h["a"], h["b"]})
+        if len(cands) != mult:
+            c.fail("one-block-per-potential", "%d blocks for %s %s, the list of potentials has %d" % (len(cands), la, lb, mult))
             continue
         b = cands[0]
         c.num("gulp-cutoff", b["cutoff"], ctx.cutoff, what="cutoff of %s %s" % (la, lb))
@@ -859,6 +862,8 @@ def _replay_one(job):
     ctx = Ctx(case, idx, _SEED, variant)
     if case["m"]["nr"] >= 1000:
         routes = [r for r in routes if r in ("class", "cli")]
+    if case["m"]["fam"] == "pair" and len({tuple(p) for p in case["m"]["pots"]}) < len(case["m"]["pots"]):
+        routes = [r for r in routes if r in ("class", "wp")]      # a pair listed twice: Python API only (a potable file with it is refused, C20)
     if idx % 3 == 0 and not case["rejects"]:
         # history prelude: an earlier tabulation of the same model in this process failed part-way (C12/C17 interplay);
         # the replay that follows must be unaffected
